@@ -79,3 +79,44 @@ Theorem C15_round_robin_one_step_per_item_recorded :
   ppc (me w' p) = 5%nat.
 Proof. exact FactoryBlocks.worker_round_robin_step. Qed.
 Print Assumptions C15_round_robin_one_step_per_item_recorded.
+
+(* the input side (every world): when the worker slot of a machine with ROUND_ROBIN in-edge policy has been granted, the block
+   draws exactly one index -- the number of earlier draws modulo the number of in-edges --, records exactly that index, issues
+   one retrieval request (the fresh token it keeps) and remembers the index it will pull from; no edge other than the chosen
+   in-edge is touched.  A constant in-edge index: the same with that index and no generator step. *)
+Theorem C15_round_robin_pull_one_step_per_item_recorded :
+  forall w p,
+  let n := pown (me w p) in let nd := get_node w n in
+  ppc (me w p) = 2%nat -> ninsel nd = PRoundRobin -> nins nd <> [] ->
+  (n < length (wnodes w))%nat -> (p < length (wprocs w))%nat ->
+  let k := ninptr nd in let m := length (nins nd) in
+  let w' := fst (machine_block w p) in
+  ninptr (get_node w' n) = S k /\
+  wlog w' = wlog w ++ [LSel n false (k mod m)] /\
+  pix (me w' p) = (k mod m)%nat /\
+  ptks (me w' p) = [length (Kernel.evs (wk w))] /\
+  ppc (me w' p) = 4%nat.
+Proof. exact FactoryBlocks.machine_round_robin_pull. Qed.
+Print Assumptions C15_round_robin_pull_one_step_per_item_recorded.
+
+Theorem C15_round_robin_pull_touches_only_the_chosen_edge :
+  forall w p,
+  let n := pown (me w p) in let nd := get_node w n in
+  ppc (me w p) = 2%nat -> ninsel nd = PRoundRobin -> nins nd <> [] ->
+  FactoryBlocks.only_edge (nth (ninptr nd mod length (nins nd)) (nins nd) 0%nat) w (fst (machine_block w p)).
+Proof. exact FactoryBlocks.machine_round_robin_pull_touches_one_edge. Qed.
+Print Assumptions C15_round_robin_pull_touches_only_the_chosen_edge.
+
+Theorem C15_constant_pull_recorded :
+  forall w p i,
+  let n := pown (me w p) in let nd := get_node w n in
+  ppc (me w p) = 2%nat -> ninsel nd = PConst i -> in_range i (length (nins nd)) = true ->
+  (n < length (wnodes w))%nat -> (p < length (wprocs w))%nat ->
+  let w' := fst (machine_block w p) in
+  ninptr (get_node w' n) = ninptr nd /\
+  wlog w' = wlog w ++ [LSel n false (Z.to_nat i)] /\
+  pix (me w' p) = Z.to_nat i /\
+  ptks (me w' p) = [length (Kernel.evs (wk w))] /\
+  ppc (me w' p) = 4%nat.
+Proof. exact FactoryBlocks.machine_constant_pull. Qed.
+Print Assumptions C15_constant_pull_recorded.
